@@ -97,6 +97,8 @@ pub struct Full {
     pub last: LastMsg,
     pub msgs_created: Vec<MsgProj>,
     pub msgs_processed: Vec<MsgProj>,
+    /// names of the group's stored rollback snapshots ("<epoch>_<commit id>"), sorted
+    pub snapshots: Vec<String>,
 }
 
 impl Full {
@@ -144,6 +146,15 @@ impl Full {
             auth: l.auth.clone(),
         })
     }
+}
+
+/// the first `n` bytes of an ASCII string (fewer if it is shorter), for messages
+pub fn sh(s: &str, n: usize) -> &str {
+    let mut k = n.min(s.len());
+    while k > 0 && !s.is_char_boundary(k) {
+        k -= 1;
+    }
+    &s[..k]
 }
 
 pub fn ext_proj(ext: &NostrGroupDataExtension) -> ExtProj {
@@ -282,6 +293,7 @@ pub fn full<S: MdkStorageProvider>(mdk: &MDK<S>, gid: &GroupId) -> Full {
         },
         msgs_created: vec![],
         msgs_processed: vec![],
+        snapshots: vec![],
     };
     let Some(rec) = rec else {
         return f;
@@ -306,6 +318,25 @@ pub fn full<S: MdkStorageProvider>(mdk: &MDK<S>, gid: &GroupId) -> Full {
         f.pending_removes = ch.removals.iter().map(|p| p.to_hex()).collect();
         f.pending_adds.sort();
         f.pending_removes.sort();
+    }
+    {
+        use openmls_traits::OpenMlsProvider;
+        let mut names: Vec<String> = mdk
+            .provider
+            .storage()
+            .list_group_snapshots(gid)
+            .unwrap_or_default()
+            .into_iter()
+            .map(|(n, _)| {
+                // snap_<group id hex>_<epoch>_<commit id hex>
+                let mut it = n.rsplitn(3, '_');
+                let id = it.next().unwrap_or("");
+                let ep = it.next().unwrap_or("");
+                format!("{ep}_{}", &id[..8.min(id.len())])
+            })
+            .collect();
+        names.sort();
+        f.snapshots = names;
     }
     f.msgs_created = all_messages(mdk, gid, MessageSortOrder::CreatedAtFirst).unwrap_or_default();
     f.msgs_processed =
